@@ -105,6 +105,52 @@ def oc_configs(thorough):
     return c
 
 
+def ocm_metrics(thorough):
+    def v(k, **kw):
+        d = dict(nil="", neg="", ex="")
+        d.update(kw)
+        return '[k |-> "%s", nil |-> "%s", neg |-> "%s", ex |-> "%s"]' % (k, d["nil"], d["neg"], d["ex"])
+
+    def p(t, val):
+        return 'P("%s", %s)' % (t, val)
+
+    def ts(lvs, pts):
+        return "TS(<<%s>>, <<%s>>)" % (", ".join('"%s"' % x for x in lvs), ", ".join(pts))
+
+    def m(typ, keys, *series):
+        return 'M("%s", %d, <<%s>>)' % (typ, keys, ", ".join(series))
+
+    good = [
+        m("gi", 1, ts("p", [p("t1", v("i"))])),
+        m("gf", 2, ts("pa", [p("t1", v("f")), p("t2", v("f"))]), ts("ap", [p("t1", v("f"))])),
+        m("ci", 0, ts("", [p("t2", v("i"))])),
+        m("cf", 1, ts("a", [p("t1", v("f"))])),
+        m("dist", 1, ts("p", [p("t1", v("dist"))])),
+        m("dist", 0, ts("", [p("t1", v("dist", ex="sc")), p("t2", v("dist", ex="att"))])),
+        m("dist", 0, ts("", [p("t1", v("dist", nil="opts"))])),
+        m("summary", 1, ts("p", [p("t1", v("sum"))])),
+        m("gi", 0),
+    ]
+    bad = [
+        m("gdist", 0, ts("", [p("t1", v("dist"))])),
+        m("bogus", 0, ts("", [p("t1", v("i"))])),
+        m("gi", 1, ts("", [p("t1", v("i"))])),
+        m("ci", 1, ts("p", [p("t1", v("i"))]), ts("pp", [p("t1", v("i"))])),
+        m("gf", 0, ts("", [p("t1", v("i")), p("t2", v("f"))])),
+        m("cf", 0, ts("", [p("t1", v("str"))])),
+        m("dist", 0, ts("", [p("t1", v("dist", neg="count")), p("t2", v("dist"))])),
+        m("dist", 0, ts("", [p("t1", v("dist", neg="bucket"))])),
+        m("dist", 0, ts("", [p("t1", v("dist", ex="badsc"))])),
+        m("summary", 0, ts("", [p("t1", v("sum", neg="count"))])),
+        m("summary", 0, ts("", [p("t1", v("f"))])),
+        "NilM",
+        m("gi", 0, "NilTS", ts("", [p("t1", v("i"))])),
+        m("dist", 0, ts("", [p("t1", v("dist", nil="ptr"))])),
+        m("summary", 0, ts("", [p("t1", v("sum", nil="ptr"))])),
+    ]
+    return tla_set(good + bad)
+
+
 CP_DEFS = dict(
     PROPS=q("tc", "bg", "m1", "m2"), MAXLEN=3,
     CTXS=tla_set(['EmptyCtx', 'Ctx(SC(1,TRUE,<<>>),NoBag,"","")', 'Ctx(SC(2,FALSE,<<"a","b">>),<<"v1","">>,"v2","")',
@@ -198,6 +244,11 @@ def run(ctx):
         d.update({k: v for k, v in c.items() if k != "name"})
         r = ctx.tlc(S, "MC_OCBridge", "MC_OCBridge.cfg", defines=d, want_edges=True, name=c["name"], timeout=1500, heap="2g")
         edges[c["name"]] = replay(ctx, binp, "oc", r, c["name"], reps, nk=d["NK"], nb=1)
+    # ---- B. OpenCensus metric producer
+    if "ocm" in parts:
+        r = ctx.tlc(S, "MC_OCMetric", "MC_OCMetric.cfg", defines={"METRICS": ocm_metrics(thorough), "MAXLIST": 3 if thorough else 2},
+                    want_edges=True, name="oc-metrics", timeout=1500, heap="2g")
+        edges["oc-metrics"] = replay(ctx, binp, "ocm", r, "oc-metrics", [0])
     # ---- C. composite propagator
     d = dict(CP_DEFS)
     if thorough:
